@@ -227,7 +227,58 @@ def tabular(ctx) -> None:
     ctx.check('return 0' in ra and 'return 1' in ca, 'C15.tabular', frame.ref, 'row view iterates axis 0, column view axis 1', key='frame:axis', loc=frame.module.relpath)
 
 
+KIND = 'forml.io.dsl._struct.kind'
+INSTANTIABLE = {'bool', 'str', 'int', 'float', 'bytes'}  # native types whose constructor converts a value into the type
+NATIVE_CTOR = {'numbers.Integral': {'int'}, 'numbers.Real': {'float'}, 'decimal.Decimal': {'decimal.Decimal'}}
+
+
+def kind_cast(ctx) -> None:
+    """"each value cast to the declared kind": the conversion a concrete primitive kind uses (its resolved ``_cast``) is the
+    kind's own - defined by the class itself (or an ancestor declaring the same native type), or the generic
+    ``cls.__type__(value)`` with an instantiable native type.  A kind that silently inherits the conversion of a *wider* kind
+    (Integer through Numeric's to_numeric) returns values that are not of its declared native type."""
+    prog = ctx.prog
+    anyk = prog.cls(f'{KIND}:Any')
+    prim = prog.cls(f'{KIND}:Primitive')
+    generic = prog.func(f'{anyk.ref}._cast')
+    rets = [r for r in core.walk_local(generic.node) if isinstance(r, ast.Return)]
+    ctx.check(len(rets) == 1 and core.src(rets[0].value) == f'cls.__type__({generic.param_names[1]})', 'C15.kind-cast', generic, 'the generic conversion constructs the kind\'s own native type', generic.node, key='Any._cast')
+    n = 0
+    for ci in sorted(prog.subclasses(prim), key=lambda c: c.ref):
+        if '__rank__' not in ci.assigns:  # abstract intermediate (Numeric)
+            continue
+        ty = None
+        for c in ci.mro_classes():
+            if '__type__' in c.assigns:
+                ty, ty_owner = core.src(c.assigns['__type__']), c
+                break
+        found = ci.lookup('_cast')
+        if ty is None or found is None:
+            ctx.fail('C15.kind-cast', ci.ref, f'{ci.qual}: native type or conversion not found', key=f'{ci.qual}:resolve', loc=ci.module.relpath)
+            continue
+        n += 1
+        owner, node = found
+        if owner is anyk:
+            ok, why = ty in INSTANTIABLE, f'generic conversion {ty}(value)'
+        else:
+            oty = next((core.src(c.assigns['__type__']) for c in owner.mro_classes() if '__type__' in c.assigns), None)
+            ok, why = oty == ty, f'conversion of {owner.qual} (native type {oty})'
+            if ok and ty in NATIVE_CTOR:
+                r = [x for x in core.walk_local(node) if isinstance(x, ast.Return)]
+                ok = len(r) == 1 and isinstance(r[0].value, ast.Call) and (core.dotted(r[0].value.func) or '') in NATIVE_CTOR[ty]
+                why += f' returning `{core.src(r[0].value) if r else None}`'
+        ctx.check(ok, 'C15.kind-cast', ci.ref, f'{ci.qual} (native type {ty}) converts through the {why}: the result is of the declared kind', key=f'{ci.qual}:cast', loc=f'{ci.module.relpath}:{node.lineno}')
+    ctx.floor('C15.kind-cast', n, 6)
+    pc = prog.func(f'{prim.ref}.cast')
+    ok = shared.stmt_under(ctx, 'C15.kind-cast', pc, f'return {pc.param_names[1]}', [(f'isinstance({pc.param_names[1]}, cls.__type__)', True)], 'a value already of the declared native type is passed through untouched', 'Primitive.cast:identity')
+    ac = prog.func(f'{anyk.ref}.cast')
+    tr = next((x for x in ac.body if isinstance(x, ast.Try)), None)
+    okh = tr is not None and len(tr.handlers) == 1 and core.src(tr.handlers[0].type) in ('(ValueError, TypeError)', '(TypeError, ValueError)') and any(isinstance(x, ast.Raise) and 'CastError' in core.src(x) for x in tr.handlers[0].body) and core.src(tr.body[0]) == f'return cls._cast({ac.param_names[1]})'
+    ctx.check(okh, 'C15.kind-cast', ac, 'cast() = the kind\'s own conversion; an impossible conversion is refused with CastError', ac.node, key='Any.cast')
+
+
 def run(ctx) -> None:
+    kind_cast(ctx)
     call_site(ctx)
     match_entry(ctx)
     cast(ctx)
